@@ -111,7 +111,7 @@ var valueFocusTexts = map[string][]string{
 }
 
 var valueFocusFamilies = map[string][]string{
-	"td": {"typedecl"}, "hk": {"scalar"}, "hka": {"scalar"},
+	"td": {"typedecl"}, "hk": {"scalar"}, "hka": {"scalar", "expr"},
 	"kw": {"scalar"}, "l_kw": {"list", "scalar"}, "s_lt": {"list", "scalar"}, "l_none": {"list"}, "t_mix": {"tuple", "scalar"}, "m_num": {"map", "scalar"}, "m_ikw": {"map"},
 	"o_plain": {"object", "scalar"}, "o_interp": {"object"}, "o_nested": {"object"},
 	"a_str": {"expr", "scalar"}, "a_bool": {"expr", "scalar"}, "a_num": {"expr"}, "a_dyn": {"expr", "list", "object"}, "a_list": {"list", "expr"}, "a_set": {"list"},
